@@ -264,3 +264,15 @@ class VTwoProbe(_FloatProbe):
     def _process_logic(self, data, factor: float, gain: float = 1.0):
         _log("VTwoProbe", factor=factor, gain=gain)
         return data.data * factor * gain
+
+
+class VNested(_FloatOp):
+    """Pass-through operation with structured parameters (used for identity checks)."""
+
+    def _process_logic(self, data, opts: dict = None, items: list = None, label: str = "x"):
+        _log("VNested", opts=opts, items=items, label=label)
+        return FloatDataType(data.data)
+
+
+class VColl2(FloatDataCollection):
+    """A second collection type (identity checks: sweep `collection` mutation)."""
